@@ -27,7 +27,43 @@ def doc_features(ad):
           "has_ruby": "ruby" in ad["kind"], "n": ad["n"]}
 
 
+def explained(ad, sig, prev, tick):
+  """Is the unreported change at (prev, tick] the boundary of an animation step on an element with a non-zero begin offset,
+  whose parent-based resolution IS reported while its own-interval resolution is not?  (the shape of the known finding)"""
+  from ..docgen import step_boundaries
+  sigset = set(sig)
+  return any(prev < own <= tick and own not in sigset and par in sigset and own != par and has_off
+             for own, par, has_off in step_boundaries(ad))
+
+
+def replay(ctx, rp, family, detail):
+  """Re-run one recorded case (document + tick) through observation and validation."""
+  ad = rp["case"]["doc"]
+  tick = rp["case"].get("tick")
+  recs = observe_all([(ad, 1, None if tick is None else [tick], detail, family == "c14")], procs=1)
+  ctx.nontrivial("replay")
+  ctx.nontrivial("replay2")
+  ctx.sample({"replayed": rp["clause"], "tick": tick})
+  if "error" in recs[0]:
+    f = doc_features(ad)
+    f["error"] = recs[0]["error"][:80]
+    ctx.violation(family + "_snapshot_raised", {"doc": ad, "traceback": recs[0]["tb"]}, f, recs[0]["error"])
+    return
+  ctx.evaluations += len(recs[0]["times"])
+  ctx.traces += 1
+  for rid_, t, clause in validate(ctx, recs, [family], family):
+    f = doc_features(ad)
+    f["source"] = rp["features"].get("source", "replay")
+    if clause == "c02_change_between_sig_times":
+      from ..docgen import step_boundaries
+      prev = max([s for s in recs[0]["sig"] if s <= t], default=-1)
+      f["explained_by_step_resolved_against_own_interval"] = explained(ad, recs[0]["sig"], prev, t)
+    ctx.violation(clause, {"doc": ad, "tick": t, "sig": recs[0]["sig"]}, f, f"replay t={t}")
+
+
 def run(ctx, family=FAMILY, detail=False, decorate_docs=False, space=False):
+  if ctx.replay_case:
+    return replay(ctx, ctx.replay_case, family, detail)
   thorough = ctx.thorough()
   ctx.rule = ("a case is one (document, query time); documents come from TLC's exhaustive families and from a seeded random "
               "generator; non-trivial = the snapshot at that time shows at least one leaf or an empty region; distinct by "
@@ -89,8 +125,7 @@ def run(ctx, family=FAMILY, detail=False, decorate_docs=False, space=False):
       # is the unreported change one of the animation-step boundaries resolved against the element's own interval?
       from ..docgen import step_boundaries
       prev = max([s for s in r["sig"] if s <= tick], default=-1)
-      missing = step_boundaries(ad) - set(r["sig"])
-      f["explained_by_step_resolved_against_own_interval"] = any(prev < m <= tick for m in missing)
+      f["explained_by_step_resolved_against_own_interval"] = explained(ad, r["sig"], prev, tick)
     ctx.violation(clause, {"source": src, "doc": ad, "D": ad.get("D", 2), "tick": tick,
                            "observed": r["obs"][j] if j is not None else None, "sig": r["sig"]},
                   f, f"{src} doc#{rid_} n={ad['n']} t={tick}/{ad.get('D', 2)}")
